@@ -22,10 +22,35 @@ RULE = (
     "Non-trivial = run with >= 4 deplete calls; distinct = case seed"
 )
 REQUIRED = ["probe.first_once", "deplete.duration", "deplete.current", "log.first_row", "log.rows", "log.time_increasing",
-            "log.stops_at_first_violation", "battery.must_be_source"]
+            "log.stops_at_first_violation", "battery.must_be_source", "deplete.every_solved_step_handed_over"]
 SIZES = {"quick": 45, "thorough": 330}
 ASSUMPTIONS = ["a battery that delivers no current in a system without phases is outside the quantifier (infinite time step)",
                "batt_life solves with its internal defaults (vtol=1e-5, itol=1e-6); the twin is solved with the same settings"]
+
+
+_mon = {"on": False, "solves": 0, "dcalls": 0}
+
+
+class HandOverMissing(Exception):
+    """Raised by the monitor when the solver keeps being called without the current being handed to dfunc."""
+
+
+def setup(ctx):
+    ns = loader.load()
+    Sy = ns.System
+    if getattr(Sy._solve, "_slmon18", False):
+        return
+    orig = Sy._solve
+
+    def _solve(self, *a, **k):
+        if _mon["on"]:
+            _mon["solves"] += 1
+            if _mon["solves"] - _mon["dcalls"] > 3:
+                raise HandOverMissing("solver called %d times, dfunc %d times" % (_mon["solves"], _mon["dcalls"]))
+        return orig(self, *a, **k)
+
+    _solve._slmon18 = True
+    Sy._solve = _solve
 
 
 def gen(rng, i, tier):
@@ -89,6 +114,7 @@ def run(ctx, case):
         return state["cur"]
 
     def dfunc(t, i):
+        _mon["dcalls"] += 1
         state["k"] += 1
         s_ = st_at(state["k"])
         calls.append(("d", t, i, s_, state["cur"]))
@@ -96,8 +122,18 @@ def run(ctx, case):
         return s_
 
     tags = {"pack": "A"} if rng.random() < 0.3 else {}
-    with H.quiet():
-        stc, log = H.call(sysobj.batt_life, ref, cutoff=cutoff, pfunc=pfunc, dfunc=dfunc, tags=tags)
+    _mon.update(on=True, solves=0, dcalls=0)
+    try:
+        with H.quiet():
+            stc, log = H.call(sysobj.batt_life, ref, cutoff=cutoff, pfunc=pfunc, dfunc=dfunc, tags=tags)
+    finally:
+        _mon["on"] = False
+    # every solved step is handed to the depletion callback (the loop cannot advance otherwise)
+    ctx.check("deplete.every_solved_step_handed_over", not (stc == "raise" and isinstance(log, HandOverMissing)),
+              {"battery": name, "phases": [p for p, _ in phases], "monitor": str(log) if stc == "raise" else "",
+               "calls": [list(c[:3]) for c in calls if c[0] == "d"][:5]})
+    if stc == "raise" and isinstance(log, HandOverMissing):
+        return
     det0 = {"battery": name, "by_rail": by_rail, "model": model, "end": end, "steps": steps, "phases": [p for p, _ in phases]}
     ctx.count("outcome", "returned" if stc == "ok" else type(log).__name__)
     if stc != "ok":
